@@ -152,6 +152,7 @@ func callsIn(fn *ssa.Function, closures bool, names ...string) []ssa.CallInstruc
 // deref strips pointers.
 func deref(t types.Type) types.Type {
 	for {
+		t = types.Unalias(t) // dragonboat.ShardView = registry.ShardView etc.
 		p, ok := t.Underlying().(*types.Pointer)
 		if !ok {
 			return t
